@@ -10,7 +10,10 @@ from fsmc.design import MachineryError
 PROPERTY = "C15"
 LEVEL = "model_checking"
 RULE = ("BFS to closure of (real EventManager + real CSRBank x reference model) under every trigger vector x every CSR bus "
-        "operation (idle, write pending=<any pattern>, write enable=<any pattern>, read of each register, access outside the bank) per cycle")
+        "operation (idle, write pending=<any pattern>, write enable=<any pattern>, read of each register, access outside the bank) per cycle; "
+        "clients (c15_clients.py): the real Timer / UART + PHY stub / GPIOIn / GPIOTristate behind the same CSR path, every CSR operation on the event and "
+        "client registers x every client input (pads, PHY handshakes) per cycle, a reference model of the client predicting every trigger level, "
+        "the same generic monitor on the observed triggers")
 ASSUMPTIONS = [
     "2-state zero-delay FHDL semantics of litex.gen.sim",
     "write-one-to-clear acts one cycle after the bus write (registered re/r of the pending CSR, 'after or during' in the CSR docs); a trigger in that cycle wins",
@@ -203,6 +206,9 @@ REGISTRY["SharedIRQ(EventManager(pulse),EventManager(level)),csr8"] = (
     "quick", lambda: EvHarness("SharedIRQ(EventManager(pulse),EventManager(level)),csr8", [("pulse",), ("level",)], 8))
 REGISTRY["SharedIRQ(EventManager(pulse),EventManager(level,falling)),csr8"] = (
     "thorough", lambda: EvHarness("SharedIRQ(EventManager(pulse),EventManager(level,falling)),csr8", [("pulse",), ("level", "falling")], 8))
+
+
+from checks import c15_clients  # noqa: E402,F401  (adds the client configurations to REGISTRY and its assumptions to ASSUMPTIONS)
 
 
 def configs(tier):
